@@ -24,8 +24,14 @@ Premises (DESIGN §6), all visible as hypotheses:
   with a misaligned chapter `pop` moves `buffindex` and then raises.)
 * `header_once` holds at full strength, for every history, since the repair of F5 (the stream
   keeps `header_streamed`); `old_rule_header_twice` records what the former rule did.
+* the TEXT (`Core/LogbookText.lean`, the complete `__txt__`): `txt_shape`, `str_all_rows`, `row_line_cells`,
+  `chapter_text_aligned` hold for every logbook aligned at every depth (`DeepAligned`, any depth of
+  sub-chapters), every rendering `fmt` of names and values, every `columns_len` state; `stream_text_once`
+  lifts `stream_exactly_once` and `header_once` to the returned lines for valid histories, `stream_text_deep`
+  is the positional form for histories over records with sub-dictionaries.
 -/
 import DeapModel.Lemmas.C18Aux
+import DeapModel.Lemmas.C18Text
 
 set_option linter.unusedSectionVars false
 set_option linter.unusedSimpArgs false
@@ -396,6 +402,198 @@ theorem buffindex_zero_iff (C : List Name) (ops : List Op) (hv : Valid C [] ops)
         exact absurd (by simpa [delivered, streams] using a5 x (by simp [hA])) (h x hx)
     rw [a2, hA]; rfl
 
+
+/-! ### The text that `stream` and `str()` return
+
+`Logbook.txtT` is the complete `__txt__` (column discovery, chapter blocks, widths as state, header block,
+template); `rowLine fmt i lb W` is the line of record `i`: its cells in column order, a chapter column holding
+the chapter's line of the same record, left-justified to the widths `W` and joined by tabs
+(`row_line_cells`).  Everything below holds for EVERY rendering `fmt` of names and values and EVERY previous
+`columns_len` state `cl`. -/
+
+/-- `__txt__` on a logbook aligned at every depth never raises; the text is a header block followed by
+exactly one line per row from `startindex` on, in order, each being the formatted row; the header block is
+there iff the abstract model `Logbook.txt` says so (`header and startindex == 0 and log_header`, non-empty
+logbook), and the number of data lines is the number of rows `Logbook.txt` delivers. -/
+theorem txt_shape (fmt : Fmt) (si : Nat) (hdr : Bool) (lb : LB) (cl : CL) (hd : DeepAligned lb) :
+    ∃ Hd, (txtT fmt si hdr lb cl).1 = some (Hd ++ dataLines fmt si lb (txtT fmt si hdr lb cl).2) ∧
+      (Hd ≠ [] ↔ (txt si hdr lb).header = true) ∧
+      (dataLines fmt si lb (txtT fmt si hdr lb cl).2).length = (txt si hdr lb).rows.length := by
+  obtain ⟨Hd, h1, h2⟩ := txtT_ok fmt si hdr lb cl hd
+  refine ⟨Hd, h1, h2, ?_⟩
+  rw [dataLines_length]
+  simp only [txt]
+  split
+  · next hz => simp [hz]
+  · simp
+
+/-- the cells of a line, in column (header) order: `columns` is the explicit header or, without one, the
+sorted keys of the first record followed by the sorted chapter names; a chapter column holds the chapter's
+own line of the same record, any other column the formatted field (`""` when the record lacks it) -/
+theorem row_line_cells (fmt : Fmt) (i : Nat) (lb : LB) (W : CL) :
+    rowLine fmt i lb W = formatLine (W.len.getD [])
+      ((columnsOf fmt lb.header lb.rows (lb.chapters.map (·.1))).map fun name =>
+        (chapterLine fmt i name lb.chapters W.chapters).getD (cellVal fmt (lb.rows.getD i []) name)) ∧
+    (∀ name ch, getChapter name lb.chapters = some ch →
+      ∃ Wc, chapterLine fmt i name lb.chapters W.chapters = some (rowLine fmt i ch Wc)) ∧
+    (∀ name, getChapter name lb.chapters = none → chapterLine fmt i name lb.chapters W.chapters = none) := by
+  refine ⟨by cases lb; rfl, fun name ch h => chapterLine_of_getChapter fmt i name _ _ ch h,
+    fun name h => chapterLine_none fmt i name _ _ h⟩
+
+/-- A logbook without chapters, spelled out completely: `__txt__` does not raise, the header block is the single
+line of the column names (there iff `header and startindex == 0 and log_header`), followed by one line per row
+from `startindex` on, every cell the formatted field of that row (`""` for a missing one), all lines
+left-justified to the `columns_len` the call leaves behind. -/
+theorem txt_plain (fmt : Fmt) (si : Nat) (hdr : Bool) (lb : LB) (cl : CL) (hc : lb.chapters = [])
+    (hn : lb.rows.length ≠ 0) :
+    (txtT fmt si hdr lb cl).1 =
+      some ((if (hdr && si == 0 && lb.logHeader) = true
+            then [formatLine ((txtT fmt si hdr lb cl).2.len.getD []) ((columnsOf fmt lb.header lb.rows []).map fmt.name)]
+            else []) ++
+        (List.range' si (lb.rows.length - si)).map (fun i =>
+          formatLine ((txtT fmt si hdr lb cl).2.len.getD [])
+            ((columnsOf fmt lb.header lb.rows []).map fun name => cellVal fmt (lb.rows.getD i []) name))) := by
+  cases lb with
+  | mk rows chs b h lh hs =>
+    simp only [chapters_mk] at hc
+    subst hc
+    exact txtT_plain fmt si hdr rows b h lh hs cl hn
+
+/-- `str(logbook)` = header block ++ one line per record, in order, each line being the formatted row
+(cells in header order, `row_line_cells`); the header block is there iff the logbook is not empty and
+`log_header` is on; the logbook itself is unchanged. -/
+theorem str_all_rows (fmt : Fmt) (lb : LB) (cl : CL) (hd : DeepAligned lb) :
+    ∃ Hd, (strT fmt (lb, cl)).1 =
+        some (Hd ++ (List.range lb.rows.length).map fun i => rowLine fmt i lb (strT fmt (lb, cl)).2.2) ∧
+      (Hd ≠ [] ↔ (lb.rows.length ≠ 0 ∧ lb.logHeader = true)) ∧ (strT fmt (lb, cl)).2.1 = lb := by
+  obtain ⟨Hd, h1, h2⟩ := txtT_ok fmt 0 true lb cl hd
+  refine ⟨Hd, ?_, ?_, rfl⟩
+  · simpa [strT, dataLines, List.range_eq_range'] using h1
+  · rw [h2]; simp only [txt]
+    split
+    · next hz => simp [hz]
+    · next hz => simp [hz]
+
+/-- … along a valid history: `str()` of the logbook shows exactly one line per surviving record, in the
+order of entry (line `i` is the line of `specRun ops` number `i`, whose scalar cells are that record's
+scalar fields, `rows_in_order`). -/
+theorem str_history (fmt : Fmt) (C : List Name) (ops : List Op) (hv : Valid C [] ops) :
+    ∃ Hd, (strT fmt (runT fmt ops)).1 =
+        some (Hd ++ (List.range (specRun ops).length).map fun i =>
+          rowLine fmt i (run ops) (strT fmt (runT fmt ops)).2.2) ∧
+      (runT fmt ops).1 = run ops ∧ (run ops).rows = (specRun ops).map Entry.scalars := by
+  have hrep := history_rep ops (Rep.empty C) hv
+  have hlb : (runT fmt ops).1 = run ops := runT_lb fmt ops
+  have hlen : (run ops).rows.length = (specRun ops).length := by
+    rw [show (run ops).rows = _ from hrep.rows, List.length_map]; rfl
+  generalize runT fmt ops = s at hlb
+  obtain ⟨Hd, h1, _, _⟩ := str_all_rows fmt s.1 s.2 (hlb ▸ hrep.deep)
+  refine ⟨Hd, ?_, hlb, hrep.rows⟩
+  have h1' : (strT fmt s).1 =
+      some (Hd ++ (List.range s.1.rows.length).map fun i => rowLine fmt i s.1 (strT fmt s).2.2) := h1
+  rw [hlb, hlen] at h1'
+  exact h1'
+
+/-- Every chapter block has exactly as many data lines as the logbook: in the same call, the text of every
+chapter is its own header block followed by as many lines as the logbook's text has data lines (and line `k`
+of the chapter is the cell of line `k` of the logbook, `row_line_cells`). -/
+theorem chapter_text_aligned (fmt : Fmt) (si : Nat) (hdr : Bool) (lb : LB) (cl : CL) (hd : DeepAligned lb)
+    (q : Name × LB) (hq : q ∈ lb.chapters) (c : CL) :
+    ∃ Hd D Hk Dk, (txtT fmt si hdr lb cl).1 = some (Hd ++ D) ∧ (txtT fmt si hdr q.2 c).1 = some (Hk ++ Dk) ∧
+      D.length = lb.rows.length - si ∧ Dk.length = D.length ∧
+      Dk = dataLines fmt si q.2 (txtT fmt si hdr q.2 c).2 := by
+  obtain ⟨hlen, hdq⟩ := ((deepAligned_iff lb).1 hd).2 q hq
+  obtain ⟨Hd, h1, _⟩ := txtT_ok fmt si hdr lb cl hd
+  obtain ⟨Hk, h2, _⟩ := txtT_ok fmt si hdr q.2 c hdq
+  exact ⟨Hd, _, Hk, _, h1, h2, dataLines_length _ _ _ _, by rw [dataLines_length, dataLines_length, hlen], rfl⟩
+
+/-- Reading the stream repeatedly, at text level.  Over any valid history with pairwise different records,
+ended by a reading of the stream: every reading returns a text (never raises); taken apart (`blocks`: per
+reading a header block and the delivered rows next to their lines) the concatenation of everything the stream
+ever returned consists of the header blocks and, for the rows `delivered` by `Logbook.stream` in that order,
+one line each; that list of delivered rows has no duplicate and contains every surviving record — so every
+surviving record has EXACTLY ONE data line, in record order within each reading —; each line is the formatted
+row of its record in the logbook of some moment of the history; and at most one reading carries a header
+block. -/
+theorem stream_text_once (fmt : Fmt) (C : List Name) (ops : List Op) (hv : Valid C [] ops)
+    (hd : (recordedOf ops).Nodup) :
+    ∃ blocks : List (List String × List (Row × String)),
+      streamTexts fmt (ops ++ [.stream]) = blocks.map (fun b => some (b.1 ++ b.2.map (·.2))) ∧
+      blocks.flatMap (fun b => b.2.map (·.1)) = delivered (ops ++ [.stream]) ∧
+      (delivered (ops ++ [.stream])).Nodup ∧ (∀ r ∈ (run ops).rows, r ∈ delivered (ops ++ [.stream])) ∧
+      (blocks.filter fun b => decide (b.1 ≠ [])).length ≤ 1 ∧
+      ∀ b ∈ blocks, ∀ p ∈ b.2, ∃ pre W i, pre <+: ops ++ [.stream] ∧
+        (run pre).rows[i]? = some p.1 ∧ p.2 = rowLineOf fmt i p.1 (run pre) W := by
+  have hv' : Valid C [] (ops ++ [Op.stream]) := by
+    rw [valid_append]; exact ⟨hv, by simp [Valid, OpOk]⟩
+  obtain ⟨b1, b2, b3, b4⟩ := blocks_history fmt (ops ++ [.stream]) (LB.empty, CL.empty)
+    (valid_prefix_deep (ops ++ [.stream]) LB.empty [] (Rep.empty C) hv')
+  obtain ⟨g1, g2, _⟩ := stream_exactly_once C ops hv hd
+  refine ⟨blocksFrom fmt (LB.empty, CL.empty) (ops ++ [Op.stream]), b1, ?_, g1, g2, ?_, b4⟩
+  · have := congrArg List.flatten b2
+    simpa [delivered, streams, List.flatMap_def] using this
+  · have hc := header_once (ops ++ [.stream])
+    have : (List.filter (fun b => decide (b.1 ≠ [])) (blocksFrom fmt (LB.empty, CL.empty) (ops ++ [Op.stream]))).length =
+        headerCount (ops ++ [.stream]) := by
+      have h := congrArg (fun l => (l.filter id).length) b3
+      simp only [List.filter_map, List.length_map] at h
+      simpa [headerCount, streams, Function.comp_def] using h
+    omega
+
+/-- The same for histories over records with sub-dictionaries (chapters with sub-chapters, any depth), in
+positional form: every reading of the stream returns a text = header block ++ one line per row that
+`Logbook.stream` delivers at that reading, in order (`stream_positional` counts those); at most one reading
+carries a header block. -/
+theorem stream_text_deep (fmt : Fmt) (sh : Shape) (ops : List Op) (hv : ValidDeep sh [] ops) :
+    ∃ blocks : List (List String × List (Row × String)),
+      streamTexts fmt ops = blocks.map (fun b => some (b.1 ++ b.2.map (·.2))) ∧
+      blocks.map (fun b => b.2.map (·.1)) = (streams ops).map (·.rows) ∧
+      (blocks.filter fun b => decide (b.1 ≠ [])).length ≤ 1 ∧
+      ∀ b ∈ blocks, ∀ p ∈ b.2, ∃ pre W i, pre <+: ops ∧
+        (run pre).rows[i]? = some p.1 ∧ p.2 = rowLineOf fmt i p.1 (run pre) W := by
+  obtain ⟨b1, b2, b3, b4⟩ := blocks_history fmt ops (LB.empty, CL.empty)
+    (validDeep_prefix_deep ops LB.empty [] ⟨shaped_empty sh, rfl⟩ hv)
+  refine ⟨blocksFrom fmt (LB.empty, CL.empty) ops, b1, b2, ?_, b4⟩
+  have hc := header_once ops
+  have : (List.filter (fun b => decide (b.1 ≠ [])) (blocksFrom fmt (LB.empty, CL.empty) ops)).length =
+      headerCount ops := by
+    have h := congrArg (fun l => (l.filter id).length) b3
+    simp only [List.filter_map, List.length_map] at h
+    simpa [headerCount, streams, Function.comp_def] using h
+  omega
+
+/-- Pickling at text level: the round trip restores rows, chapters, stream position, header settings,
+`header_streamed` AND every `columns_len`, so a history with a pickle round trip anywhere returns the same
+texts and reaches the same state as the history without it.  (That the real `pickle` does restore all of
+that is established by the correspondence harness, protocols 0–5, on the copy and on the original.) -/
+theorem pickle_transparent (fmt : Fmt) (xs ys : List Op) :
+    runT fmt (xs ++ .pickle :: ys) = runT fmt (xs ++ ys) ∧
+    streamTexts fmt (xs ++ .pickle :: ys) = streamTexts fmt (xs ++ ys) := by
+  have hstep : ∀ s : LB × CL, (stepT fmt s .pickle).1 = s := by
+    intro s; simp only [stepT, step, pickle_eq]
+  have key : ∀ (xs : List Op) (s : LB × CL),
+      runFromT fmt s (xs ++ .pickle :: ys) = runFromT fmt s (xs ++ ys) ∧
+      streamTextsFrom fmt s (xs ++ .pickle :: ys) = streamTextsFrom fmt s (xs ++ ys) := by
+    intro xs
+    induction xs with
+    | nil =>
+      intro s
+      have e1 : runFromT fmt s (Op.pickle :: ys) = runFromT fmt (stepT fmt s .pickle).1 ys := rfl
+      have e2 : streamTextsFrom fmt s (Op.pickle :: ys) = streamTextsFrom fmt (stepT fmt s .pickle).1 ys := rfl
+      simp only [List.nil_append, e1, e2, hstep, and_self]
+    | cons o os ih =>
+      intro s
+      obtain ⟨i1, i2⟩ := ih (stepT fmt s o).1
+      have e1 : ∀ zs, runFromT fmt s (o :: zs) = runFromT fmt (stepT fmt s o).1 zs := fun _ => rfl
+      refine ⟨by simp only [List.cons_append, e1, i1], ?_⟩
+      by_cases hs : o = .stream
+      · subst hs
+        have e2 : ∀ zs, streamTextsFrom fmt s (Op.stream :: zs) =
+            (streamT fmt s).1 :: streamTextsFrom fmt (stepT fmt s .stream).1 zs := fun _ => rfl
+        simp only [List.cons_append, e2, i2]
+      · simp only [List.cons_append, streamTextsFrom_other fmt s o _ hs, i2]
+  exact key xs (LB.empty, CL.empty)
+
 /-! ### Pickling
 
 Not a theorem: the model's `pickle` is the identity on the state (rows, chapters, buffindex,
@@ -509,6 +707,13 @@ example : ((chapterAt [10, 20] (pop (-1) deepLB).2).map LB.rows) =
       some [[(6, 1), (5, 7), (0, 1)], [(6, 2), (5, 8), (0, 2)]] ∧
     ((chapterAt [10, 20] (delSlice [2, 0] deepLB).1).map LB.rows) = some [[(6, 2), (5, 8), (0, 2)]] := by
   decide
+-- hypotheses of the text theorems: the logbook after `demoOps` is aligned at every depth, `deepLB` too
+example : DeepAligned (run demoOps) :=
+  (history_is_image [10] demoOps (by
+    simp [demoOps, Valid, OpOk, EntryOk, specStep, Entry.dicts, pos?, position, removeIdx])).deep
+-- hypotheses of `txt_plain`: a logbook without chapters that is not empty
+example : (run [.record (.mk [(0, 1)] []), .record (.mk [(0, 2), (1, 5)] [])]).chapters = [] ∧
+    (run [.record (.mk [(0, 1)] []), .record (.mk [(0, 2), (1, 5)] [])]).rows.length ≠ 0 := by decide
 -- hypotheses of `header_first`
 example : (run [.record (.mk [(0, 1)] [])]).buffindex = 0 ∧ 0 < (run [.record (.mk [(0, 1)] [])]).rows.length ∧
     (run [.record (.mk [(0, 1)] [])]).logHeader = true ∧ (run [.record (.mk [(0, 1)] [])]).headerStreamed = false := by
